@@ -172,8 +172,11 @@ pub fn c03_str_payload() {
 /// A sink that only counts and remembers the first 9 bytes: lets slice *lengths* range up to
 /// 2^16+1 without payload loops (the payload is written by one write_all call).
 struct CountSink { first: [u8; 9], n: usize, calls: usize }
+/// (not `Infallible`: Kani 0.68 ICEs on `encode::Error::<Infallible>::write` in alloc builds)
+#[derive(Debug)]
+pub struct NoErr;
 impl Write for CountSink {
-    type Error = core::convert::Infallible;
+    type Error = NoErr;
     fn write_all(&mut self, buf: &[u8]) -> Result<(), Self::Error> {
         if self.calls < 2 {
             // heads are written with at most two calls (initial byte, argument)
